@@ -158,7 +158,7 @@ def run(tier, seed):
                 info.update(json.loads(line))
             except Exception:
                 pass
-        return {"trace": trace, "pin": pin, "rc": rc, "info": info, "stderr": se[-1500:], "prog": pf}
+        return {"trace": trace, "pin": pin, "rc": rc, "info": info, "stderr": v.clip_stderr(se, 1500), "prog": pf}
     try:
         res = v.parallel_map(one, list(enumerate(groups)), jobs=8)
         ok = collect(PROP, res, rd, ["Linearizable", "SourceKept"], viol, st)
